@@ -10,7 +10,7 @@ usage: tools/seedtest.py <dir with patch.diff, demo.diff, meta.json> <name> [--t
 import sys, os, json, subprocess, shutil, argparse, time
 ap = argparse.ArgumentParser()
 ap.add_argument("src"); ap.add_argument("name"); ap.add_argument("--tier", default="quick"); ap.add_argument("--props", default="")
-ap.add_argument("--skip-confirm", action="store_true")
+ap.add_argument("--skip-confirm", action="store_true"); ap.add_argument("--confirm-only", action="store_true")
 a = ap.parse_args()
 HERE = os.path.dirname(os.path.dirname(os.path.abspath(__file__)))
 dst = os.path.join(HERE, "seeded", a.name)
@@ -33,7 +33,7 @@ try:
         assert rc == 0, "demo.diff does not apply: " + out
         demo_cmd = meta["demo_cmd"].replace(meta.get("worktree", "/tmp/wt_" + meta["property"]), wt)
         import re
-        demo_cmd = re.sub(r"/tmp/w[t2]_C\d+", wt, demo_cmd)
+        demo_cmd = re.sub(r"/tmp/w[t23]_C\d+", wt, demo_cmd)
         rc0, out0 = sh(env_off + demo_cmd, wt)
         res["demo_passes_without_patch"] = (rc0 == 0)
         rc, out = sh("git apply %s/patch.diff" % dst, wt)
@@ -57,6 +57,8 @@ try:
                 res[k] = prev[k]
         res["earlier_checks"] = prev.get("checks", {})
     checks = {}
+    if a.confirm_only:
+        checks = meta.get("verification", {}).get("checks", {}); props = []
     for p in props:
         t0 = time.time()
         rc, out = sh("./check %s --tier %s --repo %s --no-evidence" % (p, a.tier, wt), HERE, timeout=7200)
